@@ -12,7 +12,7 @@ def config(quick):
     return dict(max_loggers=1, init_level=5, names=[], bool_lists=[[], [False]], layouts=[""], opt_lists=[[]],
                 setter_args=sa, acts=["Set", "LogA"], probe_sevs=[4], max_list=2,
                 log_sevs=[4, 8, 5] if quick else [4, 8, 5, 2, 0, 11, 7],
-                tokens=TOKENS, eps=EPS, msg_classes=MSG, max_args=2 if quick else 3, rand_max_args=12)
+                tokens=TOKENS, eps=EPS, msg_classes=MSG, max_args=2, rand_max_args=12)     # longer lists come from the random calls (up to 12 arguments)
 
 
 def rand_config(c):
